@@ -128,6 +128,8 @@ func init() {
 		"internal/abi.Escape":              func(fr *frame, a []value) value { return a[0] },
 
 		"maps.clone":            extMapsClone,
+		"sort.Slice":            extSortSlice,
+		"sort.SliceStable":      extSortSlice,
 		"(*hash/fnv.sum64).Write":  func(fr *frame, a []value) value { return extFnvWrite(fr, a, "fnv64") },
 		"(*hash/fnv.sum64a).Write": func(fr *frame, a []value) value { return extFnvWrite(fr, a, "fnv64a") },
 		"strings.Clone":         func(fr *frame, a []value) value { return a[0] },
@@ -861,4 +863,28 @@ func extFnvWrite(fr *frame, a []value, name string) value {
 	}
 	*p = termToValue(st)
 	return tuple{len(data), iface{}}
+}
+
+// extSortSlice implements sort.Slice / sort.SliceStable (which use reflect) as a
+// stable insertion sort calling the interpreted less function.
+func extSortSlice(fr *frame, a []value) value {
+	it := a[0].(iface)
+	xs, _ := it.v.([]value)
+	less := a[1]
+	lt := func(i, j int) bool {
+		r := call(fr.i, fr, token.NoPos, less, []value{i, j})
+		switch b := r.(type) {
+		case bool:
+			return b
+		case *Term:
+			return fr.i.ex.decide(b)
+		}
+		panic(engineError{"sort.Slice: less returned non-bool"})
+	}
+	for i := 1; i < len(xs); i++ {
+		for j := i; j > 0 && lt(j, j-1); j-- {
+			xs[j], xs[j-1] = xs[j-1], xs[j]
+		}
+	}
+	return nil
 }
